@@ -252,7 +252,7 @@ def run_C15(ctx):
 
 PATH_PART = {"C05": (["match"], ["Inv_NoPanic", "Inv_C05_Path"]),
              "C06": (["preload"], ["Inv_NoPanic", "Inv_C06_PathPreload"]),
-             "C20": (["match"], ["Inv_NoPanic", "Inv_C20_PathOrder", "Inv_C20_PathExact", "Inv_C20_PathSame"])}
+             "C20": (["match", "preload"], ["Inv_NoPanic", "Inv_C20_PathOrder", "Inv_C20_PathExact", "Inv_C20_PreloadPathExact", "Inv_C20_PathSame"])}
 
 
 def run_mixed(pid, file_gens, dir_gens):
